@@ -17,7 +17,7 @@ pub struct LeaseMon {
     pub lease_ms: u64,
     /// ae id -> (leader, follower, term, send time)
     sent: HashMap<u64, (u32, u32, u64, u64)>,
-    /// ae id -> success?
+    /// reply id -> success?
     reply_ok: HashMap<u64, bool>,
     /// (leader, term) -> follower -> latest *send time* of a request whose success reply reached the leader
     fresh: HashMap<(u32, u64), HashMap<u32, u64>>,
@@ -50,12 +50,12 @@ impl LeaseMon {
             Ev::AeSend { id, from, to, term, .. } => {
                 self.sent.insert(*id, (*from, *to, *term, t));
             }
-            Ev::AeReply { id, kind, term, .. } => {
+            Ev::AeReply { id, rid, kind, term, .. } => {
                 let ok = *kind == AeKind::Success && self.sent.get(id).is_some_and(|s| s.2 == *term);
-                self.reply_ok.insert(*id, ok);
+                self.reply_ok.insert(*rid, ok);
             }
-            Ev::AeReplyDeliver { id, leader } => {
-                if self.reply_ok.get(id).cloned().unwrap_or(false)
+            Ev::AeReplyDeliver { id, rid, leader } => {
+                if self.reply_ok.get(rid).cloned().unwrap_or(false)
                     && let Some((l, f, term, st)) = self.sent.get(id).cloned()
                     && l == *leader
                 {
